@@ -515,6 +515,24 @@ Section Render.
   Proof. intros ls es H. unfold render. now rewrite (layers_spec ls es H). Qed.
 End Render.
 
+(* non-vacuity: the one-worker schedule finishes a 5-point layer with batch size 2 (3 batches) *)
+Lemma sched_example :
+  let pts := [10; 11; 12; 13; 14] in
+  let s := run nat nat 0 (seq_sched nat nat (plan_reqs nat nat S 2 pts 0))
+               (init nat nat S 2 pts 0 [] (fun _ => None) (fun _ _ => 0)) in
+  finished nat nat 0 s /\ layer_out nat nat pts 0 s = [11; 12; 13; 14; 15] /\
+  Forall (foreign_ok nat nat 0) (seq_sched nat nat (plan_reqs nat nat S 2 pts 0)) /\
+  List.length (plan_reqs nat nat S 2 pts 0) = 3.
+Proof.
+  cbv zeta. split; [| split; [| split]].
+  - unfold finished. split; [vm_compute; reflexivity |]. split.
+    + intros r H. vm_compute in H. contradiction.
+    + intros k r i H. destruct k; vm_compute in H; discriminate H.
+  - vm_compute. reflexivity.
+  - vm_compute. repeat constructor.
+  - vm_compute. reflexivity.
+Qed.
+
 (* ------------------------------------------------------------------ 4. the effects the model assumes *)
 
 Local Open Scope string_scope.
